@@ -66,12 +66,15 @@ def gen(tier, rng):
             p2[j] = "%s %s:%s" % (num, word, rest)
             calls = base_calls(p2) + [sess.E("RUN"), "R5000"] + answers(inputs, 5000)
             # one conditional CONT per execution of the inserted statement (bounded)
-            for _ in range(12):
+            for _ in range(STOP_CONTS):
                 calls += ["K5000"] + answers(inputs, 5000)
             calls += [sess.E(DUMP), "R5000"]
             cases.append(Case(sess.session(calls), sig=key + "\n#%s inserted at line %s" % (word, num), tag="stop-cont",
                               meta=("stop", pi, (word, num))))
     return cases
+
+
+STOP_CONTS = 40     # conditional CONTs sent after a run with an inserted STOP
 
 
 def monitor(case, r):
@@ -201,7 +204,9 @@ def cross_monitor(cases, impl, model):
                 fails.append((i, "slicing: with quantum %d the session differs from quantum 5000 for\n%s\n  q=5000: %s\n  q=%d: %s" % (
                     arg, c.sig, sess.decode_events("|".join(a))[-400:], arg, sess.decode_events("|".join(b))[-400:])))
         elif kind in ("interrupt", "stop"):
-            if re.search(r"E:\[0 - ", impl[i]):
+            if (kind == "interrupt" and arg < 2) or re.search(r"E:\[0 - ", impl[i]):
+                # RUN itself is two instructions of direct-mode code (CLEAR, jump): an interrupt before the second one has run
+                # stops the direct statement, not the program, and there is nothing to continue
                 # the interrupt hit the direct-mode RUN / CONT command itself, before the program ran
                 stats["interrupt_in_direct_mode"] = stats.get("interrupt_in_direct_mode", 0) + 1
                 continue
@@ -212,6 +217,10 @@ def cross_monitor(cases, impl, model):
                     # the program had already ended when the interrupt arrived (interrupt at the prompt)
                     stats["interrupt_after_end"] = stats.get("interrupt_after_end", 0) + 1
                     continue
+            if kind == "stop" and len(re.findall(r"E:\[0 ", impl[i])) > STOP_CONTS:
+                # the inserted STOP sits in a loop that runs more often than CONTs were sent: the run is incomplete by construction
+                stats["stop_out_of_conts"] = stats.get("stop_out_of_conts", 0) + 1
+                continue
             want = flatten(program_output(ref))
             got_raw = flatten(program_output(impl[i]), keep_breaks=True)
             if kind == "interrupt":
